@@ -253,6 +253,13 @@ def _build(ctx, rng, case, tmp):
         model.fit(data, "mcmc_saem", n_iter=n_iter, seed=int(rng.integers(1 << 30)), progress_bar=False)
         ctx.count("fits")
         info["fitted"] = True
+        if rng.random() < 0.3 and kind != "mixture_logistic":
+            # history on the same object: trajectories are computed, then the calibration is resumed (second fit); everything the model
+            # reports afterwards must follow the parameters of the LAST fit
+            _warm_trajectories(model, kind)
+            model.fit(data, "mcmc_saem", n_iter=int(rng.integers(3, 12)), seed=int(rng.integers(1 << 30)), progress_bar=False)
+            ctx.count("refits_after_trajectory_calls")
+            case["refit"] = True
     elif route == "lme-fit":
         df, ds = cohort()
         slope = noise == "slope"
@@ -275,6 +282,15 @@ def _build(ctx, rng, case, tmp):
             hyper.setdefault("features", list(feats))
             model = cls(name, **hyper)
         model.load_parameters(params)
+        if kind not in ("lme", "constant") and rng.random() < 0.4:
+            # documented "instantiate or UPDATE": a second hand-written vector is loaded into the live model after it was used
+            model._is_initialized = True
+            _warm_trajectories(model, kind)
+            params = _hand_parameters(rng, kind, dim, src, noise, n_clusters)
+            case["hand_parameters"] = params
+            model.load_parameters(params)
+            ctx.count("parameters_updated_on_live_model")
+            case["updated_live"] = True
     elif route == "hand-file":
         if kind == "lme":
             params = _lme_hand_parameters(rng, noise == "slope")
@@ -311,6 +327,21 @@ def _build(ctx, rng, case, tmp):
     else:
         raise AssertionError(route)
     return model, info
+
+
+def _warm_trajectories(model, kind):
+    """Use the model through its public API (population-level derived values read, one trajectory estimated)."""
+    try:
+        from leaspy.io.outputs import IndividualParameters
+
+        k = int(getattr(model, "source_dimension", 0) or 0)
+        ip = IndividualParameters()
+        ip.add_individual_parameters("warm", {"xi": [0.1], "tau": [70.0], **({"sources": [0.2] * k} if k >= 1 else {})})
+        model.estimate({"warm": [65.0, 75.0]}, ip)
+        if k >= 1:
+            model.state["mixing_matrix"]
+    except Exception:
+        pass
 
 
 # --------------------------------------------------------------------------------------
